@@ -241,3 +241,41 @@ func TestFreezeGroupIsACrash(t *testing.T) {
 		t.Fatalf("freeze: %v", f)
 	}
 }
+
+func TestWaitGroupReusePanicsLikeGo(t *testing.T) {
+	// a waiter released at zero that finds the counter raised again when it runs panics (sync.WaitGroup's reuse check);
+	// the search reaches that interleaving, and never panics when the Add happens after Wait has returned
+	body := func(addAfterReturn bool) func(s *simrt.Sim) {
+		return func(s *simrt.Sim) {
+			var wg simsync.WaitGroup
+			wg.Add(1)
+			returned := false
+			s.Go("waiter", func() {
+				defer func() {
+					if r := recover(); r != nil {
+						s.Fail("reuse", "panic", "%v", r)
+					}
+				}()
+				wg.Wait()
+				returned = true
+			})
+			s.Go("worker", func() {
+				wg.Done()
+				if addAfterReturn {
+					for !returned {
+						simrt.Yield()
+					}
+				}
+				wg.Add(1)
+				wg.Done()
+			})
+			s.Quiesce()
+		}
+	}
+	if f := search(t, 400, simrt.Config{}, body(false)); f["reuse"] == 0 {
+		t.Fatalf("the reuse panic was never reached")
+	}
+	if f := search(t, 400, simrt.Config{}, body(true)); len(f) != 0 {
+		t.Fatalf("Add after Wait returned must be fine: %v", f)
+	}
+}
